@@ -1,7 +1,8 @@
 (* C12 - printing an unedited document yields text that parses back equal.
-   Statements only; proofs live in GT.JsonProofs (and GT.CsvProofs). *)
+   Statements only; proofs live in GT.JsonProofs, GT.CsvProofs and GT.StructProofs. *)
 From Coq Require Import List Bool ZArith.
 Require Import GT.PyBase GT.JsonSpec GT.JsonModel GT.JsonProofs.
+Require Import GT.CsvModel GT.CsvProofs GT.StructSpec GT.StructModel GT.StructProofs.
 Import ListNotations.
 Open Scope Z_scope.
 
@@ -29,7 +30,66 @@ Proof. exact C12_json_domain_inhabited. Qed.
 Example C12_json5_domain_example : json5_domain example_doc5 /\ canon example_doc5 <> example_doc5.
 Proof. exact C12_json5_domain_inhabited. Qed.
 
+(* CSV: every table (ragged rows, empty rows, empty cells) whose cells contain no carriage return - the loader's
+   image, since csv.build_tree reads the file with universal newlines - reads back EXACTLY (a fortiori equal for
+   CSVNode.__eq__, which moreover identifies all tables without a non-empty row); the hypothesis is necessary *)
+Theorem C12_csv : forall t, csv_domain t -> csv_read (csv_print t) = Some t.
+Proof. exact C12_csv_all. Qed.
+Theorem C12_csv_eq : forall t, csv_domain t -> exists r, csv_read (csv_print t) = Some r /\ table_equiv r t = true.
+Proof. exact C12_csv_equiv. Qed.
+Theorem C12_csv_refuted : exists t, csv_read (csv_print t) <> Some t /\ csv_read (csv_print t) = Some [[[10]]].
+Proof. exact C12_csv_cr_refuted. Qed.
+Example C12_csv_domain_example : csv_domain example_table /\ csv_read (csv_print example_table) = Some example_table.
+Proof. exact C12_csv_domain_inhabited. Qed.
+
+(* YAML: graphtage's block-structure printing around ANY scalar codec (dump = the third-party emitter behind
+   YAMLFormatter.write_obj, lexs = the third-party scalar resolver) that satisfies, on the scalars in_dom,
+     scalar_rt  : the resolver reads back what the emitter wrote, and
+     scalar_lex : what the emitter wrote is a non-empty token without line feed, space or colon;
+   every document of such scalars without an empty sequence or mapping *)
+Theorem C12_struct_yaml :
+  forall (A : Type) (dump : A -> list Z) (lexs : list Z -> option A) (in_dom : A -> bool),
+    (forall x, in_dom x = true -> lexs (dump x) = Some x) ->
+    (forall x, in_dom x = true -> tok_ok (dump x) = true) ->
+    forall t : stree A, stree_all in_dom t = true -> stree_nonempty t = true ->
+      yaml_parse_s A lexs (yaml_print_s A dump t) = Some t.
+Proof. exact C12_struct_yaml_codec. Qed.
+(* the instance the harness evaluates: scalars as the tokens the implementation wrote for them *)
+Theorem C12_struct_yaml_tok : forall t, yaml_domain t -> yaml_parse (yaml_print t) = Some t.
+Proof. exact C12_struct_yaml_tokens. Qed.
+(* outside the non-empty domain the statement fails, for the model as for the code (D15) *)
+Theorem C12_struct_yaml_refuted : exists t, stree_all (forallb tokc) t = true /\ yaml_parse (yaml_print t) <> Some t.
+Proof. exact C12_struct_yaml_empty_refuted. Qed.
+Example C12_struct_yaml_example :
+  yaml_domain example_ytree /\
+  yaml_parse_s (list Z) Some (yaml_print_s (list Z) (fun x => x) example_ytree) = Some example_ytree.
+Proof. exact C12_struct_yaml_inhabited. Qed.
+
+(* plist: strings and keys any text without markup characters or white space (empty allowed), integer and real
+   tokens non-empty, booleans, arrays and dictionaries of any nesting (empty allowed) *)
+Theorem C12_struct_plist : forall t, plist_domain t -> plist_parse (plist_print t) = Some t.
+Proof. exact C12_struct_plist_all. Qed.
+Theorem C12_struct_plist_refuted : exists t, plist_parse (plist_print t) <> Some t.
+Proof. exact C12_struct_plist_markup_refuted. Qed.
+Example C12_struct_plist_example :
+  plist_domain example_ptree /\ plist_parse (plist_print example_ptree) = Some example_ptree.
+Proof. exact C12_struct_plist_inhabited. Qed.
+
+(* XML: names, attribute values and text without markup characters or white space (text non-empty or absent, so
+   "modulo surrounding white space" is plain equality here), any nesting *)
+Theorem C12_struct_xml : forall t, xml_domain t -> xml_parse (xml_print t) = Some t.
+Proof. exact C12_struct_xml_all. Qed.
+Example C12_struct_xml_example :
+  xml_domain example_xtree /\ xml_parse (xml_print example_xtree) = Some example_xtree.
+Proof. exact C12_struct_xml_inhabited. Qed.
+
 Print Assumptions C12_json.
 Print Assumptions C12_json_string.
 Print Assumptions C12_json5.
 Print Assumptions C12_json5_refuted.
+Print Assumptions C12_csv.
+Print Assumptions C12_csv_refuted.
+Print Assumptions C12_struct_yaml.
+Print Assumptions C12_struct_yaml_tok.
+Print Assumptions C12_struct_plist.
+Print Assumptions C12_struct_xml.
